@@ -40,7 +40,7 @@ type outcome struct {
 	tree                   wm.W
 }
 
-const hangLimit = 20 * time.Second
+const hangLimit = 60 * time.Second
 
 // withWatchdog runs f; if it does not return within hangLimit the case is
 // re-tried alone twice more (the machine may be loaded) before it counts.
